@@ -6,7 +6,7 @@ from common import R, Rvec, Cx, fl, cfl, ModelError
 
 from common import wiring_pre_build as pre_build  # noqa: E402,F401
 
-LEAN_MODULES = ["PyomaVerif.Props.C06", "PyomaVerif.Mutants.C06", "PyomaVerif.Props.WiringMpe", "PyomaVerif.Props.C06C13", "PyomaVerif.Props.C06Faithful", "PyomaVerif.Props.WiringStore", "PyomaVerif.Props.WiringClass", "PyomaVerif.Props.WiringCalls", "PyomaVerif.Props.C06Band"]
+LEAN_MODULES = ["PyomaVerif.Props.C06", "PyomaVerif.Mutants.C06", "PyomaVerif.Props.WiringMpe", "PyomaVerif.Props.C06C13", "PyomaVerif.Props.C06Faithful", "PyomaVerif.Props.WiringStore", "PyomaVerif.Props.WiringClass", "PyomaVerif.Props.WiringCalls", "PyomaVerif.Props.C06Band", "PyomaVerif.Mutants.C06Band"]
 THEOREMS = [
     # call-site wiring of the class layer, regenerated from /repo on every run (translate_wiring.py)
     "PV.WiringMpe.C06_fdd_mpe_wiring",
@@ -80,6 +80,9 @@ THEOREMS = [
     "PV.C06Band.exLine_contract",
     "PV.C06Band.exLine_sqrt",
     "PV.C06Band.ex_of_spec",
+    "PV.Mutants.C06Band.upper_tie_fails",
+    "PV.Mutants.C06Band.upper_tie_agrees_off_ties",
+    "PV.Mutants.C06Band.narrow_band_empty",
 ]
 RULE = (
     "correspondence: fdd.FDD_mpe vs Fdd.fddMpe on random increasing grids (uniform k*df and irregular), random "
